@@ -373,6 +373,10 @@ var hdTargets = []mgTarget{
 	{"pkg/handler/handler_sso_server.go", "SSOServer.LogoutFrontChannel", "serverLogoutFrontChannel"},
 	{"pkg/handler/handler_sso_server.go", "SSOServer.LogoutLocal", "serverLogoutLocal"},
 	{"pkg/handler/handler_sso_server.go", "SSOServer.Wildcard", "serverWildcard"},
+	{"pkg/openid/client/login_callback.go", "Client.LoginCallback", "clientLoginCallback"},
+	{"pkg/openid/client/login_callback.go", "Client.authorizationServerIssuerIdentification", "issuerIdentification"},
+	{"pkg/openid/client/login_callback.go", "Client.redeemTokens", "redeemTokens"},
+	{"pkg/openid/oauth2.go", "StateMismatchError", "stateMismatchError"},
 }
 
 func genManager() {
